@@ -1,11 +1,14 @@
-// C08 correspondence harness: drives the real etcd provider fold
-// (handleWatchResponse / updateNodesWithChanges / publishClusterTopologyEvent through
-// the package's own _keepWatching loop on an injected watch channel) and the real
-// service directory (app.Cluster / ClusterServices.MakeMembers and its getters) on
-// generated and replayed op lines; one observation per op.
+// C08 correspondence harness: drives the real etcd provider (initial listing, watch fold,
+// publication) and the real service directory (app.Cluster / ClusterServices.MakeMembers and
+// its getters) on generated and replayed op lines; one observation per op.
 //
-// White-box access to package etcd comes from overlay/export_verif.go (build
-// flag -overlay, see checks/C08.py); nothing under /repo is modified.
+// The provider is driven through its EXPORTED surface only: etcd.NewWithConfig, StartMember,
+// StartClient, UpdateClusterState, Shutdown, and the cluster.ICluster callback
+// UpdateClusterTopology it publishes to.  No unexported identifier of package etcd is named
+// anywhere (there is no overlay shim any more): the in-memory KV / Lease / Watcher stand-ins are
+// plugged in by locating the provider's *clientv3.Client field BY TYPE (reflect + unsafe), the
+// lease id by its type clientv3.LeaseID.  Renaming, moving or splitting unexported fields,
+// methods and files of package etcd therefore cannot break this harness.
 package c08
 
 import (
@@ -31,7 +34,6 @@ import (
 
 	"github.com/dfklegend/cell2/node/app"
 	"github.com/dfklegend/cell2/node/cluster"
-	"github.com/dfklegend/cell2/node/cluster/clusterproviders/etcd"
 	"github.com/dfklegend/cell2/node/config"
 	"github.com/dfklegend/cell2/utils/logger"
 )
@@ -43,10 +45,12 @@ type recCluster struct {
 	name     string
 	id       string
 	state    int
+	state0   int // the state given by the reset op (`state` ops before the provider starts change `state` only)
 	services []string
 	pubs     []string          // rendered publications since the last take()
 	last     []*cluster.Member // last list handed over, as published
 	dir      *app.Cluster      // the real directory, fed with every publication
+	mute     bool              // publications are not recorded (StartClient's initial publication of an empty listing, see foldStart)
 }
 
 func (c *recCluster) GetAddress() string    { return c.address }
@@ -55,6 +59,9 @@ func (c *recCluster) GetID() string         { return c.id }
 func (c *recCluster) GetState() int         { return c.state }
 func (c *recCluster) GetServices() []string { return c.services }
 func (c *recCluster) UpdateClusterTopology(ms []*cluster.Member) {
+	if c.mute {
+		return
+	}
 	c.pubs = append(c.pubs, showPub(ms))
 	c.last = ms
 	c.dir.UpdateClusterTopology(ms)
@@ -213,12 +220,22 @@ func parseMember(tok string) *cluster.Member {
 
 type world struct {
 	rc      *recCluster
-	p       *etcd.Provider
+	inited  bool     // the last reset succeeded (the provider's init accepts the node's address)
+	fold    *foldRun // the started provider of the fold stream (started by the first list / watch op of a case)
 	dir     *app.Cluster
 	ordered bool
 }
 
 func newWorld() *world { return &world{dir: app.NewCluster(), ordered: true} }
+
+// endFold stops the provider of the case (Shutdown, goroutines gone, bubble closed)
+func (w *world) endFold() {
+	if w.fold != nil {
+		f := w.fold
+		w.fold = nil
+		f.end(true)
+	}
+}
 
 func hasDupIds(ms []*cluster.Member) bool {
 	seen := map[string]bool{}
@@ -247,6 +264,7 @@ func (w *world) exec(op string) string {
 			svcs, ok6 := hx.KV(ws, "svcs")
 			port, e1 := strconv.Atoi(ports)
 			st, e2 := strconv.Atoi(sts)
+			w.endFold()
 			*w = *newWorld()
 			if !(ok1 && ok2 && ok3 && ok4 && ok5 && ok6) || e1 != nil || e2 != nil {
 				return "bad-op"
@@ -256,13 +274,11 @@ func (w *world) exec(op string) string {
 				addr = "nonhost"
 			}
 			services := splitList(svcs)
-			w.rc = &recCluster{address: addr, name: name, id: id, state: st, services: services, dir: w.dir}
-			w.p = etcd.VerifNew()
-			if err := w.p.VerifInit(w.rc); err != nil {
-				w.p = nil
-				return "err"
-			}
-			return "self=" + showMember(w.p.VerifSelf().MemberStatus())
+			w.rc = &recCluster{address: addr, name: name, id: id, state: st, state0: st, services: services, dir: w.dir}
+			// what the provider's init makes of these getters: StartMember on an empty store publishes the node itself
+			obs := probeSelf(w.rc)
+			w.inited = strings.HasPrefix(obs, "self=")
+			return obs
 		case "mk":
 			var ms []*cluster.Member
 			for _, t := range ws[1:] {
@@ -326,25 +342,29 @@ func (w *world) exec(op string) string {
 			names, _ := hx.KV(ws, "names")
 			return dump(w.dir, splitList(types), splitList(names))
 		}
-		if w.p == nil {
+		if !w.inited {
 			return "noinit"
 		}
 		switch ws[0] {
 		case "list":
-			var nodes []*etcd.Node
+			// the initial listing = what the store returns to StartMember's Get
+			var listing []*mvccpb.KeyValue
 			for _, t := range ws[1:] {
 				b, ok := nodeJSON(t)
 				if !ok {
 					return "bad-op"
 				}
-				// fetchNodes: n := Node{}; n.Deserialize(v.Value)
-				n := etcd.Node{}
-				if err := n.Deserialize(b); err != nil {
-					return "bad-op"
-				}
-				nodes = append(nodes, &n)
+				id := strings.SplitN(t, ";", 2)[0]
+				listing = append(listing, &mvccpb.KeyValue{Key: []byte(key(id)), Value: b})
 			}
-			w.p.VerifListing(nodes)
+			if w.fold != nil {
+				return "unsupported-second-listing" // a provider lists once, when it starts
+			}
+			f, err := foldStart(w.rc, listing, true)
+			if err != nil {
+				return "starterr"
+			}
+			w.fold = f
 			w.ordered = false
 			pubs := w.rc.take()
 			if len(pubs) == 0 {
@@ -357,7 +377,12 @@ func (w *world) exec(op string) string {
 			if !ok || err != nil {
 				return "bad-op"
 			}
-			w.p.UpdateClusterState(st)
+			if w.fold != nil {
+				w.fold.b.do(func() { w.fold.p.UpdateClusterState(st) })
+			} else {
+				// not started yet: the provider will read the state from ICluster.GetState() when it starts
+				w.rc.state = st
+			}
 			return "ok"
 		case "watch":
 			var resps []clientv3.WatchResponse
@@ -392,21 +417,20 @@ func (w *world) exec(op string) string {
 				}
 			}
 			resps = append(resps, cur)
-			ch := make(chan clientv3.WatchResponse, len(resps))
-			for _, r := range resps {
-				ch <- r
+			if w.fold == nil {
+				// responses without a listing: the provider after init with nothing listed = StartClient on an empty store
+				f, err := foldStart(w.rc, nil, false)
+				if err != nil {
+					return "starterr"
+				}
+				w.fold = f
 			}
-			close(ch)
-			err := w.p.VerifWatch(ch)
+			ret := w.fold.watch(resps)
 			pubs := w.rc.take()
 			if len(pubs) > 0 {
 				w.ordered = false
 			}
-			if err != nil {
-				pubs = append(pubs, "ret=err")
-			} else {
-				pubs = append(pubs, "ret=ok")
-			}
+			pubs = append(pubs, ret)
 			return strings.Join(pubs, " ")
 		}
 		return "bad-op"
@@ -588,16 +612,17 @@ func (w *world) startMember(ws []string) string {
 		}
 	}
 	obs := "panic"
+	p := newProvider()
 	synctest.Test(curT, func(t *testing.T) {
 		c := &holdCluster{firstEntered: make(chan struct{}), secondDone: make(chan struct{})}
-		c.recCluster = recCluster{address: w.rc.address, name: w.rc.name, id: w.rc.id, state: w.rc.state,
+		c.recCluster = recCluster{address: w.rc.address, name: w.rc.name, id: w.rc.id, state: w.rc.state0,
 			services: w.rc.services, dir: app.NewCluster()}
 		lease := &memLease{}
 		wt := &memWatcher{release: c.firstEntered}
 		if len(resp.Events) > 0 {
 			wt.resp = resp
 		}
-		p := etcd.VerifNewWithClient(&clientv3.Client{KV: &memKV{listing: listing}, Lease: lease, Watcher: wt})
+		installClient(p, &clientv3.Client{KV: &memKV{listing: listing}, Lease: lease, Watcher: wt})
 		err := p.StartMember(c)
 		synctest.Wait()
 		c.mu.Lock()
@@ -866,11 +891,12 @@ func (w *world) sysRun(ws []string) string {
 		return "bad-op"
 	}
 	obs := "panic"
+	p := newProvider()
 	synctest.Test(curT, func(t *testing.T) {
-		c := &recCluster{address: w.rc.address, name: w.rc.name, id: w.rc.id, state: w.rc.state,
+		c := &recCluster{address: w.rc.address, name: w.rc.name, id: w.rc.id, state: w.rc.state0,
 			services: w.rc.services, dir: app.NewCluster()}
 		lease := &memLease{st: st}
-		p := etcd.VerifNewWithClient(&clientv3.Client{KV: storeKV{s: st}, Lease: lease, Watcher: storeWatcher{s: st}})
+		installClient(p, &clientv3.Client{KV: storeKV{s: st}, Lease: lease, Watcher: storeWatcher{s: st}})
 		var err error
 		if mode == "client" {
 			err = p.StartClient(c)
@@ -1470,6 +1496,7 @@ func (g *gen) emitCase(w *world, pre []string, evs []string, mask int, extra []s
 func (g *gen) randomCases(n int) {
 	r := g.h.R
 	w := newWorld()
+	defer w.endFold()
 	for c := 0; c < n; c++ {
 		nn := 3 + r.Intn(2)
 		mism := r.Intn(10) == 0
@@ -1642,6 +1669,7 @@ func exhAlphabet() []string {
 // every history of length <= maxLen over the alphabet, every batching, two listings
 func (g *gen) exhaustive(maxLen int) {
 	w := newWorld()
+	defer w.endFold()
 	al := exhAlphabet()
 	reset := "reset name=c id=n0 host=h0 port=7000 state=1 svcs=gate.g0"
 	lists := []string{"list", "list c@n1;h1;a1;7001;1;1;chat.c9 c@n2;h2;a2;7002;0;1;gate.g2"}
@@ -1733,6 +1761,7 @@ func TestRun(t *testing.T) {
 		for _, op := range ops {
 			h.Emit(op, w.exec(op))
 		}
+		w.endFold()
 		return
 	}
 	w := newWorld()
@@ -1754,6 +1783,10 @@ func TestRun(t *testing.T) {
 	op = fmt.Sprintf("stress big=%d swaps=%d", hx.EnvInt("VERIF_STRESSBIG", 20000), hx.EnvInt("VERIF_STRESSSWAPS", 16))
 	h.Count("stress-wide")
 	h.Emit(op, w.exec(op))
+	w.endFold()
+	for k, v := range constructed {
+		h.Stats[k] = v
+	}
 }
 
 // TestExhaustive: all histories of <= VERIF_EXH events over the 10-event alphabet,
